@@ -519,6 +519,16 @@ type c12MoveCase struct {
 }
 
 func c12MoveRun(w *c12World, c c12MoveCase) (sig, what string) {
+	if len(c.MoveProg) == 1 && c.MoveProg[0] == "STP-then-SetPC" {
+		rr := c12Run{Prog: []string{"NOP", "STP", "NOP", "NOP"}, Start: 0x7E2000, Target: 0x7E3000, Budget: 20}
+		c12Prepare(w.sut, rr)
+		w.sut.RunUntil(rr.Target, rr.Budget)
+		w.sut.SetPC(c.Target)
+		if n, st := w.sut.CPU.Step(); !st || !w.sut.CPU.Stopped || n < 1 {
+			return "unexplained:stop-cleared-without-reset", fmt.Sprintf("after STP, SetPC($%06x) and a Step: Step returned (%d, %v), CPU.Stopped=%v", c.Target, n, st, w.sut.CPU.Stopped)
+		}
+		return "", ""
+	}
 	rr := c12Run{Prog: c.MoveProg, Start: c.Start, Target: c.Target, Budget: c.Budget}
 	if _, _, err := c12Assemble(rr.Prog, rr.Start); err != nil {
 		return "bad-case", err.Error()
@@ -708,6 +718,23 @@ func runC12(r *report.Run) {
 			r.Violation(sig, what, runs[i])
 		}
 	})
+	// the stop condition lasts until Reset: not until SetPC, GetPC or a RunUntil call on the System
+	if w, err := c12NewWorld(); err == nil {
+		rr := c12Run{Prog: []string{"NOP", "STP", "NOP", "NOP"}, Start: 0x7E2000, Target: 0x7E3000, Budget: 20}
+		c12Prepare(w.sut, rr)
+		w.sut.RunUntil(rr.Target, rr.Budget)
+		executed++
+		for _, pc := range []uint32{0x7E2002, 0x7E2000, 0x008000} {
+			w.sut.SetPC(pc)
+			_ = w.sut.GetPC()
+			w.sut.RunUntil(pc, 0)
+			if n, st := w.sut.CPU.Step(); !st || !w.sut.CPU.Stopped || n < 1 {
+				r.Violation("unexplained:stop-cleared-without-reset", fmt.Sprintf("after STP, SetPC($%06x) and a Step: Step returned (%d, %v), CPU.Stopped=%v; only Reset ends the stop condition", pc, n, st, w.sut.CPU.Stopped), c12MoveCase{MoveProg: []string{"STP-then-SetPC"}, Start: 0x7E2000, Target: pc})
+				break
+			}
+		}
+		w.skipped = true
+	}
 	// a logger whose Commit moves the PC onto / off the target
 	if w, err := c12NewWorld(); err == nil {
 		for _, prog := range [][]string{{"NOP", "NOP", "NOP"}, {"INX", "BRA -3"}} {
